@@ -27,6 +27,29 @@ def _skip_guarded(cfg, f, node, idx_text):
             [(t, 'true') for e, t in cfg.test_nodes.items() if norm(e) == '%s not in skip_bytes' % idx_text]
     if not edges:
         return False, None
+    # `while IDX < END and IDX in skip_bytes: IDX += 1` followed by `if IDX < END: store`: the loop exit on `IDX < END` false cannot
+    # reach the store, whose own test has the same text and nothing re-binds the operands in between -- that exit is infeasible here
+    same = {}
+    for e, t in cfg.test_nodes.items():
+        if isinstance(e, ast.Compare) and norm(e.left) == idx_text and isinstance(e.ops[0], ast.Lt):
+            same.setdefault(norm(e), []).append(t)
+    for txt, ts in same.items():
+        loops = [t for t in ts if isinstance(t.owner, ast.While)]
+        ifs = [t for t in ts if isinstance(t.owner, ast.If)]
+        ops_ = set(x.id for x in ast.walk(ast.parse(txt)) if isinstance(x, ast.Name))
+        for tl in loops:
+            for ti in ifs:
+                if node in cfg.reachable(cfg.entry, avoid_edges=[(ti, 'true')]):
+                    continue
+                exits = [nx for nx, lab in tl.succ if lab == 'false']
+                between = set()
+                for nx in exits:
+                    between |= cfg.reachable(nx, avoid_nodes=[ti])
+                rebound = any(isinstance(b.ast, (ast.Assign, ast.AugAssign)) and any(
+                    isinstance(x, ast.Name) and x.id in ops_ for tt in (b.ast.targets if isinstance(b.ast, ast.Assign) else [b.ast.target]) for x in ast.walk(tt))
+                    for b in between if b.kind == 'stmt' and b.ast is not None and tl not in cfg.reachable(b, avoid_nodes=[ti]))
+                if not rebound:
+                    edges = edges + [(tl, 'false')]
     okk, p = only_via(cfg, node, edges, ps=False)
     if not okk:
         return False, p
@@ -102,8 +125,9 @@ def rule_guarded_stores(report, prog):
     # the wipe loop of Type2Tag._format is bounded by the data area
     f = prog.func('nfc.tag.tt2.Type2Tag._format')
     okk = bool(find(f.node, 'memory_size = memory[14] * 8 + 16')) and \
-        any(isinstance(l, ast.For) and norm(l.iter) == 'range(offset + 1, memory_size)' and
-            len(live(l.body)) == 1 and isinstance(live(l.body)[0], ast.If) and norm(live(l.body)[0].test) == 'offset not in skip_bytes'
+        any(isinstance(l, ast.For) and norm(l.iter) == 'range(offset + 1, memory_size)' and isinstance(l.target, ast.Name) and
+            len(live(l.body)) == 1 and isinstance(live(l.body)[0], ast.If) and norm(live(l.body)[0].test) == l.target.id + ' not in skip_bytes' and
+            all(isinstance(x, ast.Assign) and norm(x.targets[0]) == 'memory[%s]' % l.target.id for x in live(live(l.body)[0].body))
             for l in walk_no_nested(f.node))
     report.check(okk, 'C03-R1', key(f.qname, 'wipe loop runs from behind the empty TLV to the end of the data area'), f.loc(),
                  'Type 2 wipe range changed')
